@@ -60,6 +60,37 @@ def gen_case(rng, big):
     return {"orders": orders, "items": items}
 
 
+def gen_mixed_block(rng):
+    """ONE transaction that builds packages of several kinds, each kind at / around its own per-call limit (place 200; cancel, update, replace 60):
+    the limit of one kind must not leak into another kind of the same transaction, nor survive an explicit execute() inside the block"""
+    counts = {"place": rng.choice([0, 1, 1, 199, 201, 30]), "cancel": rng.choice([0, 59, 60, 61, 100, 121]), "update": rng.choice([0, 0, 61, 75, 120]),
+              "replace": rng.choice([0, 0, 61, 90])}
+    if counts["cancel"] + counts["update"] + counts["replace"] == 0:
+        counts["cancel"] = 100
+    orders, reqs, n = [], [], 0
+    for k, cnt in counts.items():
+        for _ in range(cnt):
+            n += 1
+            if k == "place":
+                orders.append({"name": n, "kind": "L", "status": "NONE", "bet": False, "inb": False, "rem": 500, "price": 200, "persist": "LAPSE"})
+                reqs.append({"k": "place", "name": n, "mv": None, "execute": True, "force": False, "ok": True})
+            else:
+                orders.append({"name": n, "kind": "L", "status": "EXECUTABLE", "bet": True, "inb": True, "rem": 500, "price": 200, "persist": "LAPSE"})
+                reqs.append({"k": "cancel", "name": n, "red": None, "force": False, "ok": True} if k == "cancel" else
+                            {"k": "update", "name": n, "persist": "PERSIST", "force": False, "ok": True} if k == "update" else
+                            {"k": "replace", "name": n, "price": 300, "mv": None, "force": False, "ok": True})
+    mode = rng.choice(["grouped", "shuffled", "exec_between"])
+    if mode == "shuffled":
+        rng.shuffle(reqs)
+    items = [{"k": "begin"}]
+    for i, q in enumerate(reqs):
+        if mode == "exec_between" and i and reqs[i - 1]["k"] != q["k"] and rng.random() < 0.7:
+            items.append({"k": "exec"})
+        items.append(q)
+    items.append({"k": "end"})
+    return {"orders": orders, "items": items}
+
+
 def to_model_items(c, results):
     """the escape flag: if that request raised, the rest of the block is skipped (the exception left the with-block)"""
     out, ri, i = [], 0, 0
@@ -98,7 +129,8 @@ def main():
         ck.broken.append({"kind": "generator", "what": "gen_consts txn failed"}); return ck.finish("generator failed")
     if not ck.build_props(["Model/C02Cases.vo"]):
         coq_build(["Model/C02Cases.vo"])
-    cases = [gen_case(rng, False) for _ in range(4000 if thorough else 900)] + [gen_case(rng, True) for _ in range(40 if thorough else 10)]
+    cases = [gen_case(rng, False) for _ in range(4000 if thorough else 900)] + [gen_case(rng, True) for _ in range(40 if thorough else 10)] + \
+            [gen_mixed_block(rng) for _ in range(60 if thorough else 16)]
     outs = run_impl_parallel("c02", [{"cases": ch} for ch in chunked(cases, 60)])
     res = [r for o in outs for r in o["out"]]
     rows = []
@@ -170,7 +202,7 @@ def main():
         ck.fail("C02-size-reduction-guard", "cancel with size reduction %s (hundredths) on an order with %s remaining: expected %s, got result %s, status %s, update data %s, packages %s" % (
             bcases[i]["items"][0]["red"], bcases[i]["orders"][0]["rem"], "accepted and sent once" if bexp[i] else "OrderUpdateError and no change", bres[i]["results"], bres[i]["final"][0][1], bres[i]["final"][0][4], bres[i]["packages"]),
             {"case": bcases[i], "impl": bres[i], "how": "harness/impl/c02.py"})
-    return ck.finish("request storms on a real Market/Transaction with real orders (0-700 requests of mixed kinds over market versions None/0/1/2/3, inside `with market.transaction()` blocks with explicit execute(), exceptions caught inside or escaping the block, or as direct market calls; per-request control verdict from an oracle control; every order status at request time; force on/off; counts around 199/200/201 and 59/60/61 and multiples): per-request result, captured packages and final order state compared in Coq with the model; Betdaq orders are not exercised")
+    return ck.finish("request storms on a real Market/Transaction with real orders (0-700 requests of mixed kinds over market versions None/0/1/2/3, inside `with market.transaction()` blocks with explicit execute(), exceptions caught inside or escaping the block, or as direct market calls; per-request control verdict from an oracle control; every order status at request time; force on/off; counts around 199/200/201 and 59/60/61 and multiples; single transactions that build packages of several kinds, each kind at / around its own limit, grouped, shuffled or with execute() between the kinds): per-request result, captured packages and final order state compared in Coq with the model; Betdaq orders are not exercised")
 
 
 def real_controls(ck, rng, thorough):
